@@ -233,6 +233,15 @@ Proof.
 Qed.
 Print Assumptions C14_converges_inits_inputs.
 
+(* ================================================================= the repaired flag computations
+   (proposed_fixes/C14-*.diff; selected by the harness for a finding whose status is "fixed"): FULL statement *)
+Theorem C14_flag_sound_fixed :
+  (forall m, snd (clear_pass_fixed m) = false -> fst (clear_pass_fixed m) = m)
+  /\ (forall g, snd (dce_fixed g) = false -> fst (dce_fixed g) = g)
+  /\ (forall sort m, snd (topo_pass_fixed sort m) = false -> fst (topo_pass_fixed sort m) = m).
+Proof. split; [exact clear_fixed_flag_sound | split; [exact dce_fixed_flag_sound | exact topo_fixed_flag_sound]]. Qed.
+Print Assumptions C14_flag_sound_fixed.
+
 (* Non-vacuity: hypotheses met by concrete, non-trivial states *)
 Example C14_example_partial_hypotheses :
   let g := {| g_inputs := [10%positive]; g_inits := [2; 3]%positive;
